@@ -35,14 +35,19 @@ import (
 )
 
 type stageResult struct {
-	Stage       string `json:"stage"`
-	Bound       string `json:"bound"`
-	Configs     int    `json:"configurations_total"`
-	ConfigsDone int    `json:"configurations_evaluated"`
-	Evals       int    `json:"evaluations"`
-	KernelDumps int    `json:"kernel_tree_dumps"`
-	Builds      int    `json:"kernel_tree_builds"`
-	Complete    bool   `json:"complete"`
+	Stage       string  `json:"stage"`
+	Bound       string  `json:"bound"`
+	Configs     int     `json:"configurations_total"`
+	ConfigsDone int     `json:"configurations_evaluated"`
+	Evals       int     `json:"evaluations"`
+	KernelDumps int     `json:"kernel_tree_dumps"`
+	AvfsDumps   int     `json:"avfs_tree_dumps"`
+	Variants    int     `json:"normalised_oracle_evaluations"`
+	Disagree    int     `json:"disagreeing_evaluations"`
+	Builds      int     `json:"kernel_tree_builds"`
+	Undos       int     `json:"kernel_tree_undos"`
+	CacheHits   int     `json:"kernel_answer_cache_hits"`
+	Complete    bool    `json:"complete"`
 	WallS       float64 `json:"wall_s"`
 }
 
@@ -212,10 +217,10 @@ func main() {
 	}
 
 	var (
-		results   []stageResult
-		exh       = true
-		graphs    = map[int]int{}
-		evalsAll  = cst.Evals
+		results  []stageResult
+		exh      = true
+		graphs   = map[int]int{}
+		evalsAll = cst.Evals
 		harness  string
 	)
 
@@ -319,7 +324,12 @@ func main() {
 			sr.ConfigsDone += o.Configs
 			sr.Evals += o.Evals
 			sr.KernelDumps += o.KernelDumps
+			sr.AvfsDumps += o.AvfsDumps
+			sr.Variants += o.VariantEvals
+			sr.Disagree += o.Disagreements
 			sr.Builds += o.Builds
+			sr.Undos += o.Undos
+			sr.CacheHits += o.CacheHits
 
 			for k, n := range o.Classes {
 				classes[k] += n
@@ -350,8 +360,8 @@ func main() {
 		evalsAll += sr.Evals
 		results = append(results, sr)
 
-		fmt.Printf("C04 stage %s: configurations=%d/%d evaluations=%d kernel_dumps=%d rebuilds=%d complete=%v wall=%.1fs\n",
-			st.Name, sr.ConfigsDone, sr.Configs, sr.Evals, sr.KernelDumps, sr.Builds, sr.Complete, sr.WallS)
+		fmt.Printf("C04 stage %s: configurations=%d/%d evaluations=%d disagreeing=%d kernel_dumps=%d avfs_dumps=%d rebuilds=%d undos=%d cache_hits=%d normalised_oracle_evals=%d complete=%v wall=%.1fs\n",
+			st.Name, sr.ConfigsDone, sr.Configs, sr.Evals, sr.Disagree, sr.KernelDumps, sr.AvfsDumps, sr.Builds, sr.Undos, sr.CacheHits, sr.Variants, sr.Complete, sr.WallS)
 
 		if harness != "" {
 			break
@@ -414,7 +424,7 @@ func main() {
 				"transitions = evaluations = one call on one query path in one configuration, executed on MemFS and on tmpfs and compared (outcome kind, returned value, and for mutating calls the whole trees); " +
 				"distinct_nontrivial = distinct (call, kernel outcome, class of the query's final component: file|dir|link>file|link>dir|link>dangling|link>loop|missing; chain-length class for the sweep) classes observed",
 			"samples": samples, "exhaustive": exh,
-			"bound": fmt.Sprintf("chain sweep N=1..%d (complete); stages %s; completed: {%s}", chainMax, strings.Join(bounds, " || "), strings.Join(done, ",")),
+			"bound":  fmt.Sprintf("chain sweep N=1..%d (complete); stages %s; completed: {%s}", chainMax, strings.Join(bounds, " || "), strings.Join(done, ",")),
 			"stages": results, "chain_sweep": map[string]any{
 				"chains": cst.Configs, "evaluations": cst.Evals, "kernel_stat_max_chain": cst.KernelStatMax, "memfs_stat_max_chain": cst.AvfsStatMax,
 				"filepath_evalsymlinks_max_chain": cst.FilepathEvalMax, "memfs_evalsymlinks_max_chain": cst.AvfsEvalMax,
